@@ -128,7 +128,9 @@ package proto
 
 //@ func (*Message).RESPBytes
 //@ assigns nothing
-//@ ensures {C01} isLine(msg.Type) && noCRLF(msg.bytes) ==> encLine(elems(result0), off(result0), msg) && len(result0) == encLineLen(msg)
+//@ ensures {C01} isLine(msg.Type) ==> len(result0) == encLineLen(msg) && elems(result0)[off(result0)] == typeByte(msg.Type) && elems(result0)[off(result0) + 1 + len(msg.bytes)] == 13 && elems(result0)[off(result0) + 2 + len(msg.bytes)] == 10
+//@ ensures {C01} isLine(msg.Type) && noCRLF(msg.bytes) ==> forall i int :: off(result0) + 1 <= i && i < off(result0) + 1 + len(msg.bytes) ==> elems(result0)[i] == msg.bytes[i - (off(result0) + 1)]
+//@ ensures {C01} isLine(msg.Type) && noCRLF(msg.bytes) ==> encLine(elems(result0), off(result0), msg)
 //@ ensures {C01} msg.Type == BulkMessage && msg.bytes == nil ==> encNull(elems(result0), off(result0)) && len(result0) == 5
 //@ ensures {C01} msg.Type == BulkMessage && msg.bytes != nil ==> encBulk(elems(result0), off(result0), msg) && len(result0) == encBulkLen(msg)
 //@ ensures {C04} err == nil ==> frameHead(result0)
@@ -148,6 +150,7 @@ package proto
 //@   invariant buf_len[&respBytes] == 1 + (rangeindex + 1) && -1 <= rangeindex && rangeindex < len(msg.bytes)
 //@   invariant buf_data[&respBytes][0] == typeByte(msg.Type)
 //@   invariant forall j int :: 1 <= j && j <= rangeindex + 1 ==> buf_data[&respBytes][j] == clean(msg.bytes[j-1])
+//@   invariant noCRLF(msg.bytes) ==> forall j int :: 1 <= j && j <= rangeindex + 1 ==> buf_data[&respBytes][j] == msg.bytes[j-1]
 //@   decreases len(msg.bytes) - rangeindex
 
 //@ func (*Array).RESPBytes
@@ -305,6 +308,7 @@ package proto
 //@   invariant err == io.EOF ==> S_pos == S_end
 //@   invariant len(readByte) == 1 && fresh(readByte)
 //@   invariant forall i int :: 0 <= i && i < buf_len[&readBytes] ==> buf_data[&readBytes][i] == S_in[old(S_pos)+i] && buf_data[&readBytes][i] != 13
+//@   invariant forall i int :: old(S_pos) <= i && i < old(S_pos) + buf_len[&readBytes] ==> S_in[i] != 13
 //@   decreases S_end - S_pos + n
 
 //@ func (*Parser).nextBulkMessage
